@@ -397,7 +397,17 @@ type dropCache struct{}
 func (dropCache) Load(interface{}) (interface{}, bool) { return nil, false }
 func (dropCache) Store(interface{}, interface{})       {}
 
+// swapCache: the library accepts a struct-type cache once per process (SetStructTypeCache is guarded by a sync.Once);
+// this delegating cache is installed once and its inner cache exchanged per space.
+type swapCache struct{ inner valid.CacheEr }
+
+func (s *swapCache) Load(k interface{}) (interface{}, bool) { return s.inner.Load(k) }
+func (s *swapCache) Store(k, v interface{})                 { s.inner.Store(k, v) }
+
+var swap = &swapCache{inner: valid.NewLRU()}
+
 func run(c *runner.Ctx) {
+	valid.SetStructTypeCache(swap)
 	vals := values()
 	type rform struct{ rules, form string }
 	var forms []rform
@@ -420,7 +430,7 @@ func run(c *runner.Ctx) {
 			c.Space("struct+var+map")
 		} else {
 			c.Space("struct-carriers/struct-type-cache=" + cc.name)
-			valid.SetStructTypeCache(cc.mk())
+			swap.inner = cc.mk()
 		}
 		for _, tv := range vals {
 			for _, rf := range forms {
@@ -459,7 +469,7 @@ func run(c *runner.Ctx) {
 			}
 		}
 	}
-	valid.SetStructTypeCache(valid.NewLRU())
+	swap.inner = valid.NewLRU()
 	longCollections(c)
 	zeroElements(c)
 	// Var on maps (round 12). Var documents scalars and slices; a map handed to it is either refused as a whole (what the
